@@ -403,6 +403,69 @@ def rot_invariance(kind, norb, nu, nd, what="energy"):
     return [o]
 
 
+def rot_invariance_ucisd(norb=3, nu=2, nd=1, what="energy"):
+    """C15.rot.inv.<what>.ucisd: the alpha reference of ucisd is 'the first nu orbitals of the working basis', so the rotations that keep the trial
+    representable are C = R_occ (+) R_virt (exact rational orthogonal blocks).  Rotating the Hamiltonian with rotate_orbs, walkers and the beta
+    orbitals mo_coeff[1] with C^T, and the alpha indices of the amplitudes with R_occ / R_virt leaves overlap, energy and force bias unchanged."""
+    t0 = time.time()
+    H.setup_repo()
+    import jax.numpy as jnp
+    from ad_afqmc import hamiltonian
+    nel = (nu, nd)
+    c = Case("ucisd", norb, nel, nchol=2 if what != "energy" else 1)
+    sp = c.inp.sp
+    Ro, Rv = rational_orthogonal(nu), rational_orthogonal(norb - nu, "rot")
+    M = np.zeros((norb, norb), dtype=object)
+    M[:] = 0
+    M[:nu, :nu] = Ro
+    M[nu:, nu:] = Rv
+    Cs, Cx = _fr_array(sp, M), np.array(M, dtype=float)
+    Ros, Rox, Rvs, Rvx = _fr_array(sp, Ro), np.array(Ro, dtype=float), _fr_array(sp, Rv), np.array(Rv, dtype=float)
+    ham = hamiltonian.hamiltonian(norb)
+    hs, hx = c.sx(c.ham0)
+    rs, _ = evaluate(sp, ham.rotate_orbs, (dict(h1=hs["h1"], chol=hs["chol"]), Cs), (dict(h1=hx["h1"], chol=hx["chol"]), jnp.asarray(Cx)))
+    rx = ham.rotate_orbs(dict(h1=hx["h1"], chol=hx["chol"]), jnp.asarray(Cx))
+    hs2, hx2 = dict(hs, h1=rs["h1"], chol=rs["chol"]), dict(hx, h1=rx["h1"], chol=rx["chol"])
+    pick = lambda a, s_, x_: s_ if is_obj(a) else x_
+    left = lambda v: H.both(lambda a: pick(a, Cs, Cx).T.dot(a), v)
+    W = c.wave
+    wave2 = dict(mo_coeff=[W["mo_coeff"][0], left(W["mo_coeff"][1])],
+                 ci1A=H.both(lambda a: np.einsum("ip,ia,aq->pq", pick(a, Ros, Rox), a, pick(a, Rvs, Rvx)), W["ci1A"]), ci1B=W["ci1B"],
+                 ci2AA=H.both(lambda a: np.einsum("ip,aq,jr,bs,iajb->pqrs", pick(a, Ros, Rox), pick(a, Rvs, Rvx), pick(a, Ros, Rox), pick(a, Rvs, Rvx), a), W["ci2AA"]),
+                 ci2BB=W["ci2BB"],
+                 ci2AB=H.both(lambda a: np.einsum("ip,aq,iajb->pqjb", pick(a, Ros, Rox), pick(a, Rvs, Rvx), a), W["ci2AB"]))
+    w1 = list(c.walkers())
+    w2 = [left(w) for w in w1]
+    wvs, wvx = c.sx(c.wave)
+    wvs2, wvx2 = c.sx(wave2)
+    s1, x1 = c.sx(tuple(w1))
+    s2, x2 = c.sx(tuple(w2))
+    name = f"C15.rot.inv.{what}.{tag('ucisd', norb, nel)}"
+    fns = ["hamiltonian.hamiltonian.rotate_orbs"]
+    mi = c.trial._build_measurement_intermediates
+    if what == "overlap":
+        fn, meth = c.trial._calc_overlap, "_calc_overlap"
+        a, _ = evaluate(sp, fn, tuple(s1) + (wvs,), tuple(x1) + (wvx,))
+        b, _ = evaluate(sp, fn, tuple(s2) + (wvs2,), tuple(x2) + (wvx2,))
+        nat = lambda: (np.asarray(fn(*x1, wvx)), np.asarray(fn(*x2, wvx2)))
+    else:
+        meth = {"energy": "_calc_energy", "fb": "_calc_force_bias"}[what]
+        fn = getattr(c.trial, meth)
+        ha_s, _ = evaluate(sp, mi, (hs, wvs), (dict(hx), wvx))
+        hb_s, _ = evaluate(sp, mi, (hs2, wvs2), (dict(hx2), wvx2))
+        ha_x, hb_x = mi(dict(hx), wvx), mi(dict(hx2), wvx2)
+        a, _ = evaluate(sp, fn, tuple(s1) + (ha_s, wvs), tuple(x1) + (ha_x, wvx))
+        b, _ = evaluate(sp, fn, tuple(s2) + (hb_s, wvs2), tuple(x2) + (hb_x, wvx2))
+        nat = lambda: (np.asarray(fn(*x1, ha_x, wvx)), np.asarray(fn(*x2, hb_x, wvx2)))
+    o = H.identity(name, a, b, functions=fq(c, meth) + (fq(c, "_build_measurement_intermediates") if what != "overlap" else []) + fns, inputs=c.inp, t0=t0,
+                   note=f"{what} unchanged under C = R_occ (+) R_virt applied to Hamiltonian (rotate_orbs), walkers, beta orbitals and the alpha amplitude indices")
+    if o["status"] == REFUTED:
+        na, nb = nat()
+        o["replayed"] = bool(np.max(np.abs(na - nb)) > 1e-4 * (1 + np.max(np.abs(na))))       # single-precision casts inside the CI energy
+        o["witness"] = dict(o.get("witness") or {}, native=dict(original=str(na), rotated=str(nb)))
+    return [o]
+
+
 def canary():
     H.setup_repo()
     import jax.numpy as jnp
